@@ -368,9 +368,11 @@ class JSONGrammar(BaseGrammar):
 
     def _create_validator(self) -> None:
         """Create the schema validator."""
-        self.schema.pop("id", None)
-        self.schema.pop("required", None)
-        self.__validator = compile_schema(self.schema)
+        # Do not alter the cached schema.
+        schema = dict(self.schema)
+        schema.pop("id", None)
+        schema.pop("required", None)
+        self.__validator = compile_schema(schema)
 
     def set_descriptions(self, descriptions: Mapping[str, str]) -> None:
         """Set the properties descriptions.
@@ -513,6 +515,10 @@ class JSONGrammar(BaseGrammar):
     def __init_dependencies(self) -> None:
         """Resets the validator and schema dict."""
         self.__validator = None
+        self.__schema = {}
+
+    def _handle_required_names_change(self) -> None:
+        # The required names are part of the cached schema.
         self.__schema = {}
 
     def _check_name(self, *names: str) -> None:
